@@ -197,10 +197,12 @@ def system_population(ctx, P, iters):
     # nodes[0] is the arrival node and nodes[-1] the exit node
     init = sim.method("__init__")[1]
     ok_nodes = False
-    for n in ast.walk(init):
+    from ..model import enclosing_def
+    for n in rules.walk(P, sim, init):
         if isinstance(n, ast.Assign) and any(is_self_attr(t, "nodes") for t in n.targets):
-            txt = unparse(n.value).replace(" ", "")
-            ok_nodes = txt.startswith("[self.ArrivalNodeType(self)]+") and txt.endswith("+[self.ExitNodeType()]")
+            segs = rules.list_segments(n.value, enclosing_def(n))
+            ok_nodes = len(segs) >= 2 and segs[0] == ("elem", "self.ArrivalNodeType(self)") and segs[-1] == ("elem", "self.ExitNodeType()") \
+                and all(k == "splat" for k, _ in segs[1:-1])
     if not ok_nodes:
         ctx.unrecognised("SYS: Simulation.nodes is not built as [ArrivalNodeType(self)] + transitive_nodes + [ExitNodeType()]")
     for view in family_views(P, "ArrivalNode"):
